@@ -60,8 +60,27 @@ func checkC05(c *Ctx, r *Report) {
 		return
 	}
 	f, g := fs[0], gs[0]
+	nForget := 0
+	for _, pf := range li.Fns {
+		if originPkgPath(pf) != proxyPkg {
+			continue
+		}
+		eachCall(pf, func(call ssa.CallInstruction, n string) {
+			if n == "(*golang.org/x/sync/singleflight.Group).Forget" {
+				nForget++
+				r.Fail("C05.R1", fnKey(pf)+": singleflight key is forgotten", c.InstrPos(call), "Group.Forget releases the key while a fetch may still be in flight: the next identical request starts a second origin fetch instead of joining the running one")
+			}
+		})
+	}
+	if nForget == 0 {
+		r.OkT("C05.R1", "the coalescing key is never released early", "-", "no singleflight.Group.Forget in package proxy")
+	}
 	do := findCall(f, "(*golang.org/x/sync/singleflight.Group).Do")
 	if do == nil {
+		if dc := findCall(f, "(*golang.org/x/sync/singleflight.Group).DoChan"); dc != nil {
+			r.Undecided("C05.R2", "coalescing through DoChan", c.InstrPos(dc), "dedupFetch coalesces through singleflight.DoChan: the shared-handle rule (R2) is written for Do's (v, err, shared) results and is not decided for this shape")
+			return
+		}
 		r.Fail("C05.R1", "dedupFetch coalesces through singleflight", c.Pos(f.Pos()), "no singleflight.Do in dedupFetch: identical concurrent requests each fetch from the origin")
 		return
 	}
@@ -505,6 +524,7 @@ func checkC09(c *Ctx, r *Report) {
 	r.Decided = []string{
 		"R1 error discipline: every error returned by a cache.Cache call in package proxy (Get, Cache, UpdateMetadata) either is the classified miss (ErrCacheEntryNotFound → fetch), or reaches only returns that carry ErrNotCacheable, or is handled on the spot by a direct fetch — it never flows into the 5xx branch of processRequest",
 		"R2 the fallbacks exist and are wired: every fetch entry of dedupFetch (coalesced and non-coalesced) maps ErrNotCacheable to fetchDirectlyFromUpstream(req)",
+		"R3 every cache function releases each lock it takes on every exit (a leaked shard lock hangs all later requests of that shard)",
 		"R4 sibling cross-check: whether a backend refuses an empty body is reported (memory accepts, file refuses) and is covered by R1's fallback",
 	}
 	r.NotDec = []string{"hangs and dropped connections caused by the transport", "a second origin request being observable by the origin (the fallback re-fetches)", "panics (C16)"}
@@ -615,6 +635,31 @@ func checkC09(c *Ctx, r *Report) {
 		d := findCall(f, fetcherT+"dedupFetch")
 		r.Check(d != nil, "C09.R1", "processRequest fetches through dedupFetch", c.Pos(f.Pos()), "single fetch entry", "processRequest no longer calls dedupFetch (anchor of the error-flow rule)")
 	}
+
+	// R3: a cache operation on the request path never leaves a shard / map lock behind
+	// (a leaked lock turns later good origin answers into hangs)
+	unp := map[*ssa.Function][]string{}
+	for i, u := range li.Unpaired {
+		fn := li.UnpairedAt[i].Parent()
+		unp[fn] = append(unp[fn], u+" at "+c.InstrPos(li.UnpairedAt[i]))
+	}
+	n3 := 0
+	hasOps := map[*ssa.Function]bool{}
+	for i := range li.Ops {
+		hasOps[li.Ops[i].fn] = true
+	}
+	for _, fn := range li.Fns {
+		if originPkgPath(fn) != cachePkg || !hasOps[fn] {
+			continue
+		}
+		n3++
+		if len(unp[fn]) > 0 {
+			r.Fail("C09.R3", fnKey(fn)+": locks are released on every exit", c.Pos(fn.Pos()), strings.Join(uniq(unp[fn]), "; ")+": every later request mapping to that shard blocks forever although the origin answers")
+		} else {
+			r.Ok("C09.R3", fnKey(fn)+": locks are released on every exit", c.Pos(fn.Pos()), "acquire/release paired on all paths (incl. error and continue paths)")
+		}
+	}
+	r.Floor("C09.R3", n3, 15, "cache functions with lock operations")
 
 	// R4 sibling: empty-body refusal
 	refuses := map[string]bool{}
